@@ -196,6 +196,24 @@ async fn ep_err_handler(
     gated(rqctx.context().clone(), rqctx.request_id.clone(), path.into_inner().n, "err").await
 }
 
+// A handler that relays a response it built itself, already carrying an x-request-id of its own (as a proxy
+// relaying an upstream response would): the framework's id must replace it (C13: exactly one, equal to the
+// request's id).
+#[endpoint { method = GET, path = "/relay/{n}" }]
+async fn ep_relay_handler(
+    rqctx: RequestContext<Arc<Ctx>>,
+    path: Path<NPath>,
+) -> Result<http::Response<dropshot::Body>, HttpError> {
+    let n = path.into_inner().n;
+    gated(rqctx.context().clone(), rqctx.request_id.clone(), n.clone(), "ok").await?;
+    Ok(http::Response::builder()
+        .status(200)
+        .header("x-request-id", format!("upstream-{}", n))
+        .header("content-type", "application/json")
+        .body(dropshot::Body::from(format!("\"{}\"", n)))
+        .unwrap())
+}
+
 #[endpoint { method = PUT, path = "/body/{n}" }]
 async fn ep_body_handler(
     rqctx: RequestContext<Arc<Ctx>>,
@@ -242,6 +260,7 @@ fn request_bytes(p: &ReqPlan) -> Vec<u8> {
     match p.kind {
         "gate" => httpc::build_request("GET", &format!("/gate/{}", p.nonce), &hdr, None),
         "gatedrop" => httpc::build_request("GET", &format!("/gatedrop/{}", p.nonce), &hdr, None),
+        "relay" => httpc::build_request("GET", &format!("/relay/{}", p.nonce), &hdr, None),
         "panic" => httpc::build_request("GET", &format!("/panic/{}", p.nonce), &hdr, None),
         "err" => httpc::build_request("GET", &format!("/err/{}", p.nonce), &hdr, None),
         "body" => httpc::build_request("PUT", &format!("/body/{}", p.nonce), &hdr, Some(b"{\"x\": 12345}")),
@@ -257,6 +276,7 @@ fn request_parts(p: &ReqPlan) -> (&'static str, String, Option<&'static [u8]>) {
     match p.kind {
         "gate" => ("GET", format!("/gate/{}", p.nonce), None),
         "gatedrop" => ("GET", format!("/gatedrop/{}", p.nonce), None),
+        "relay" => ("GET", format!("/relay/{}", p.nonce), None),
         "panic" => ("GET", format!("/panic/{}", p.nonce), None),
         "err" => ("GET", format!("/err/{}", p.nonce), None),
         "body" => ("PUT", format!("/body/{}", p.nonce), Some(b"{\"x\": 12345}")),
@@ -268,7 +288,7 @@ fn request_parts(p: &ReqPlan) -> (&'static str, String, Option<&'static [u8]>) {
 }
 
 fn runs_handler(kind: &str) -> bool {
-    matches!(kind, "gate" | "gatedrop" | "panic" | "err" | "body")
+    matches!(kind, "gate" | "gatedrop" | "relay" | "panic" | "err" | "body")
 }
 
 fn make_plan(r: &mut StdRng, ep: u64, mode: &str) -> (Vec<ReqPlan>, Vec<Step>, usize, Vec<bool>) {
@@ -279,7 +299,7 @@ fn make_plan(r: &mut StdRng, ep: u64, mode: &str) -> (Vec<ReqPlan>, Vec<Step>, u
     let mut conn_closed: Vec<bool> = vec![];
     let mut conn_h2: Vec<bool> = vec![];
     for i in 0..nreq {
-        let kind = *["gate", "gate", "gatedrop", "gatedrop", "body", "panic", "err", "badquery", "badbody", "badpath", "notfound"]
+        let kind = *["gate", "gate", "gatedrop", "gatedrop", "relay", "body", "panic", "err", "badquery", "badbody", "badpath", "notfound"]
             .choose(r)
             .unwrap();
         let reusable: Vec<usize> = (0..nconn).filter(|c| !conn_closed[*c]).collect();
@@ -537,7 +557,7 @@ fn spawn_h2_request(mut sender: H2Sender, q: ReqPlan) -> tokio::task::JoinHandle
 type Plan = (Vec<ReqPlan>, Vec<Step>, usize, Vec<bool>);
 
 fn intern(s: &str) -> &'static str {
-    for k in ["gate", "gatedrop", "panic", "err", "body", "badquery", "badbody", "badpath", "notfound", "full", "head", "body", "spec"] {
+    for k in ["gate", "gatedrop", "relay", "panic", "err", "body", "badquery", "badbody", "badpath", "notfound", "full", "head", "body", "spec"] {
         if k == s {
             return k;
         }
@@ -636,6 +656,7 @@ async fn run_episode_inner(r: &mut StdRng, ep: u64, mode: &str, given: Option<Pl
     let mut api = ApiDescription::new();
     api.register(ep_gate_handler).unwrap();
     api.register(ep_gatedrop_handler).unwrap();
+    api.register(ep_relay_handler).unwrap();
     api.register(ep_panic_handler).unwrap();
     api.register(ep_err_handler).unwrap();
     api.register(ep_body_handler).unwrap();
@@ -654,8 +675,15 @@ async fn run_episode_inner(r: &mut StdRng, ep: u64, mode: &str, given: Option<Pl
         "reqs": reqs.iter().map(|q| json!({"n": q.nonce, "conn": q.conn, "h2": q.h2, "kind": q.kind, "partial": q.partial, "fate": q.fate})).collect::<Vec<_>>()}));
     let server = ServerBuilder::new(api, ctx.clone(), log).config(config).start().expect("server");
     let addr = server.local_addr();
-    let waiter1 = server.wait_for_shutdown();
-    let waiter2 = server.wait_for_shutdown();
+    // two waiters for shutdown: tasks of their own, so that the moment each is released is what gets logged
+    let mut waiters = vec![];
+    for w in [1, 2] {
+        let fut = server.wait_for_shutdown();
+        waiters.push(tokio::spawn(async move {
+            let res = fut.await;
+            emit("waiter_released", json!({"w": w, "ok": res.is_ok()}));
+        }));
+    }
     let mut server = Some(server);
     let mut close_task: Option<tokio::task::JoinHandle<Result<(), String>>> = None;
     let mut conns: Vec<ConnState> =
@@ -899,10 +927,9 @@ async fn run_episode_inner(r: &mut StdRng, ep: u64, mode: &str, given: Option<Pl
         Ok(_) => {}
         Err(_) => emit("close_timeout", json!({})),
     }
-    for (w, fut) in [(1, waiter1), (2, waiter2)] {
-        match tokio::time::timeout(AWAIT, fut).await {
-            Ok(res) => emit("waiter_released", json!({"w": w, "ok": res.is_ok()})),
-            Err(_) => emit("waiter_timeout", json!({"w": w})),
+    for (w, task) in waiters.into_iter().enumerate() {
+        if tokio::time::timeout(AWAIT, task).await.is_err() {
+            emit("waiter_timeout", json!({"w": w + 1}));
         }
     }
     // C17: the port no longer accepts connections
